@@ -1,5 +1,6 @@
 import GnarkVerif.Proofs.VerifierGen
 import GnarkVerif.Model.ArgPairing
+import GnarkVerif.Proofs.ArgPairing
 /-
 The exponent-model reading of the generated Pedersen verifier code (`Gen/Verifier/Pedersen_*.lean`) against
 `Model/ArgPairing.lean` run with the driver's dictionary `fp q`: G1 elements and scalars are `Ex q` (Proofs/VerifierGen.lean;
@@ -44,6 +45,27 @@ theorem fp_pairingCheck_congr {a b a' b' : List ℕ}
   rw [fp_beq_decide, fp_beq_decide, h]
 
 end
+
+/-- `fr.Element.Inverse` in the exponent model: the inverse of the driver's dictionary (`0 ↦ 0`) -/
+instance {q : ℕ} : Inv (Ex q) := ⟨fun a => ⟨(fp q).inv a.v⟩⟩
+@[simp] theorem inv_v {q : ℕ} (a : Ex q) : (a⁻¹).v = (fp q).inv a.v := rfl
+
+theorem cast_fp_inv (q : ℕ) [Fact q.Prime] (h2 : 2 < q) (a : ℕ) : (((fp q).inv a : ℕ) : ZMod q) = (a : ZMod q)⁻¹ :=
+  (GV.ArgPairing.lawful_fp q h2).inv a
+
+theorem cast_fp_sub (q : ℕ) [NeZero q] (a b : ℕ) : (((fp q).sub a b : ℕ) : ZMod q) = a - b := by
+  show (((a + q - b % q) % q : ℕ) : ZMod q) = a - b
+  have h : b % q ≤ a + q := by have := Nat.mod_lt b (Nat.pos_of_ne_zero (NeZero.ne q)); omega
+  rw [ZMod.natCast_mod, Nat.cast_sub h]
+  simp
+
+/-- `KZG.pairingCheck` on two pairs = `ArgPairing.pairingCheck (fp q)` on the same operands -/
+theorem pcFixed_eq_pc (q : ℕ) [NeZero q] (a b : Ex q) (l : ℕ × ℕ) :
+    pcFixed q [a, b] l = ArgPairing.pairingCheck (fp q) [a.v, b.v] [l.1, l.2] := by
+  unfold pcFixed ArgPairing.pairingCheck
+  simp only [List.map, List.zip_cons_cons, List.zip_nil_right]
+  rw [pairingCheck2, fp_beq_decide]
+  simp [ArgPairing.dot]
 
 theorem res_ok_iff_of_eq {a b : Bool} {e : String} (h : a = b) :
     (if (!a) = true then Res.err e else Res.ok) = Res.ok ↔ b = true := by
